@@ -26,7 +26,7 @@ Init == i = 1 /\ dir = <<>> /\ stored = <<>>
 
 AsFun(fl) == [k \in {fl[j].key : j \in 1..Len(fl)} |-> File(fl[CHOOSE j \in 1..Len(fl) : fl[j].key = k].c)]
 AsSet(sq) == {sq[j] : j \in 1..Len(sq)}
-Distinct(l) == \A a \in 1..Len(l), c \in 1..Len(l) : a # c => Name(l[a]) # Name(l[c])
+Distinct(l) == \A a \in Plots(l), c \in Plots(l) : a # c => Name(l[a]) # Name(l[c])
 
 RunStep(r) ==
   LET F0 == IF r.first THEN <<>> ELSE dir
